@@ -280,6 +280,19 @@ def gen_tables(repo):
             pos = cm.end()
     if not free_rows:
         raise ValueError("CResult::free: no arms")
+    # canonical form of a match over disjoint constants: every RESULT_* code gets its action (an explicit arm, or the
+    # action of the catch-all arm when it has none), listed by code name, then the catch-all.  `RESULT_EMPTY|_ => {}` and
+    # `_ => {}` and arms in another order are the same function restype -> action and give the same table.
+    acts = dict(free_rows)
+    if "_" not in acts:
+        raise ValueError("CResult::free: no catch-all arm")
+    unknown = [p for p, _ in free_rows if p != "_" and p not in [n for n, _ in codes]]
+    if unknown:
+        raise ValueError("CResult::free: arm for an unknown code %r" % unknown)
+    first = {}
+    for p, a in free_rows:          # first matching arm wins
+        first.setdefault(p, a)
+    free_rows = [(n, first.get(n, first["_"])) for n in sorted(n for n, _ in codes)] + [("_", first["_"])]
     # cstring helpers and the CResult constructors (which restype, which Vec leaked)
     def need(rx, what):
         if not re.search(rx, src, flags=re.S):
